@@ -698,6 +698,21 @@ class FHInterp(Interp):
         return True
 
     def ev_ListComp(self, e, st, frame):
+        # ``[x + d for x in range/vector]`` (d free of x) is the shifted progression / vector
+        if len(e.generators) == 1 and not e.generators[0].ifs and isinstance(e.generators[0].target, ast.Name) \
+                and not e.generators[0].is_async:
+            g = e.generators[0]
+            itv = self.ev(g.iter, st, frame)
+            if isinstance(itv, (Rng, Vec)) and not (isinstance(e.elt, ast.Name) and e.elt.id == g.target.id):
+                self.uid += 1
+                var = "%s@comp%d" % (g.target.id, self.uid)
+                s2 = st.copy()
+                s2.env[g.target.id] = Lin.sym(var)
+                elt = as_lin_val(self.ev(e.elt, s2, frame))
+                if elt is not None and elt.terms.get(var) == 1:
+                    off = elt - Lin.sym(var)
+                    if var not in off.symbols():
+                        return fresh(itv).shift(off)
         # identity comprehension ``[x for x in it]`` denotes the iterable's elements
         if len(e.generators) == 1 and not e.generators[0].ifs and isinstance(e.elt, ast.Name) \
                 and isinstance(e.generators[0].target, ast.Name) and e.elt.id == e.generators[0].target.id:
